@@ -45,9 +45,15 @@ def gen_req(rnd, script, idx):
         headers.append((n, rnd.choice(HDR_VALUES)))
     cookies = []
     if rnd.random() < 0.4:
+        wire = []
         for i in range(rnd.choice([1, 2, 3])):
-            cookies.append((b"c%d" % i, rnd.choice([b"1", b"abc", b"a%20b", b"", b"x-y_z.~"])))
-        headers.append((b"Cookie", b"; ".join(n + b"=" + v for n, v in cookies)))
+            v = rnd.choice([b"1", b"abc", b"a%20b", b"", b"x-y_z.~", b"two words", b"semi;colon", b"com,ma", b"q\"uote"])
+            cookies.append((b"c%d" % i, v))
+            if any(c in v for c in b" ;,\""):
+                wire.append(b"c%d=\"" % i + v.replace(b"\\", b"\\\\").replace(b"\"", b"\\\"") + b"\"")     # quoted-string form
+            else:
+                wire.append(b"c%d=" % i + v)
+        headers.append((b"Cookie", rnd.choice([b"; ", b"; ", b";", b", ", b" ;  "]).join(wire)))
     body = b""
     ctype = None
     form = None
